@@ -59,6 +59,8 @@ def replay(ctx, data):
     from engine import vloop
     cfg = (data['cfg'][0], data['cfg'][1], tuple(data['cfg'][2]))
     hist = [tuple(e) for e in data['hist']]
+    poolx.WITH_PRUNE[0] = False
+    poolx.SAFETY[0] = False
     w = poolx.build(hist, cfg)
     if w.live_viol:
         # a clause violation is recorded while the history is applied
